@@ -2,6 +2,7 @@ import SimilarVerif.Lemmas.LcsMinimal
 import SimilarVerif.Lemmas.Compact
 import SimilarVerif.Lemmas.Capture
 import SimilarVerif.Lemmas.MyersOptimal
+import SimilarVerif.Lemmas.CaptureMinimal
 import SimilarVerif.Model.Common
 /-!
 # C03 — Myers and LCS report a shortest edit script; ratio = 2·LCS/(N+M)
@@ -84,5 +85,42 @@ theorem myers_minimal (E : Env) (os oe ns ne : Nat) (w : World) (r' : Rec) (w' :
       Spec.cost ops + 2 * lcsLen (eqB E) (oe-os) (ne-ns) os ns = (oe-os) + (ne-ns) ∧
       ∀ ops', Walk (eqB E) os ns ops' oe ne → Spec.cost ops ≤ Spec.cost ops' :=
   MyersT.myers_optimal E os oe ns ne w r' w' ho hn hb hc (by simpa [rawTrace, diffWith] using h)
+
+end SimilarVerif.C03
+
+namespace SimilarVerif.C03
+open SimilarVerif Spec
+
+/-- **the capture pipeline is total after a valid raw run** (any algorithm): if the raw stream is a valid
+script with `Carried` indices for in-bounds ranges, `capture_diff` returns and keeps all counts -/
+theorem capture_total_after_valid_raw : type_of% @CaptureMin.capture_total_gen := @CaptureMin.capture_total_gen
+
+/-- **Captured Myers diffs are minimal** (no deadline; totality included): `capture_diff` with Myers returns
+a valid script with `deleted + inserted = N + M - 2·LCS` and `LCS` equal items, so the ratio pair is
+`(2·LCS, N + M)` -/
+theorem capture_myers_minimal : type_of% @CaptureMin.capture_myers_minimal := @CaptureMin.capture_myers_minimal
+
+/-- **Captured LCS diffs are minimal**, total form (strengthens `capture_lcs_minimal`) -/
+theorem capture_lcs_minimal_total : type_of% @CaptureMin.capture_lcs_minimal_total :=
+  @CaptureMin.capture_lcs_minimal_total
+
+#print axioms capture_total_after_valid_raw
+#print axioms capture_myers_minimal
+#print axioms capture_lcs_minimal_total
+
+/-- non-vacuity: the hypotheses hold for `[1,0]` vs `[1,2,0,1]` (whole ranges, no deadline) … -/
+example : (0 ≤ 2) ∧ (0 ≤ 4) ∧ InBounds (Env.ofSeqs #[1,0] #[1,2,0,1]) 0 2 0 4 ∧ ({} : World).clock = none := by
+  refine ⟨by decide, by decide, ?_, rfl⟩
+  intro i j _ hi _ hj
+  have : i = 0 ∨ i = 1 := by omega
+  have : j = 0 ∨ j = 1 ∨ j = 2 ∨ j = 3 := by omega
+  rcases ‹i = 0 ∨ i = 1› with rfl | rfl <;> rcases ‹j = 0 ∨ j = 1 ∨ j = 2 ∨ j = 3› with rfl | rfl | rfl | rfl <;> decide
+
+/-- … and the captured Myers / LCS scripts are the ones shown: cost `2 = 2 + 4 - 2·2`, two equal items -/
+example : (captureDiff .myers (Env.ofSeqs #[1,0] #[1,2,0,1]) false 0 2 0 4 {}).map (·.1) =
+    .ok [.equal 0 0 1, .insert 1 1 1, .equal 1 2 1, .insert 2 3 1] := by rfl
+example : (captureDiff .lcs (Env.ofSeqs #[1,0] #[1,2,0,1]) false 0 2 0 4 {}).map (·.1) =
+    .ok [.equal 0 0 1, .insert 1 1 1, .equal 1 2 1, .insert 2 3 1] := by rfl
+example : lcsLen (eqB (Env.ofSeqs #[1,0] #[1,2,0,1])) 2 4 0 0 = 2 := by simp [lcsLen]; decide
 
 end SimilarVerif.C03
